@@ -113,19 +113,35 @@ func StaticNames() []string {
 // dynFamily returns the dynamic-instruction family that claims a name ("" = static name).
 // It asks the registry in the order EventuallyCreateInstruction does.
 func dynFamily(name string) string {
+	famMu.Lock()
+	defer famMu.Unlock()
+	if f, ok := famCache[name]; ok {
+		return f
+	}
+	f := ""
 	for _, d := range procbuilder.AllDynamicalInstructions {
 		if d.MatchName(name) {
-			return d.GetName()
+			f = d.GetName()
+			break
 		}
 	}
-	return ""
+	famCache[name] = f
+	return f
 }
+
+// MatchName compiles its regular expressions on every call; the answer is a function of the name.
+var (
+	famMu    sync.Mutex
+	famCache = map[string]string{}
+)
 
 // lookup resolves a name the way the front-ends do (cmd/procbuilder/procbuilder.go:220-241):
 // EventuallyCreateInstruction, then a search of Allopcodes.
 func lookup(name string) (procbuilder.Opcode, error) {
-	if _, err := procbuilder.EventuallyCreateInstruction(name); err != nil {
-		return nil, fmt.Errorf("EventuallyCreateInstruction(%q): %v", name, err)
+	if dynFamily(name) != "" { // for any other name the call is a no-op that compiles 17 regular expressions
+		if _, err := procbuilder.EventuallyCreateInstruction(name); err != nil {
+			return nil, fmt.Errorf("EventuallyCreateInstruction(%q): %v", name, err)
+		}
 	}
 	for _, op := range procbuilder.Allopcodes {
 		if op.Op_get_name() == name {
